@@ -422,6 +422,11 @@ def run(ctx):
                 "margin": rng.choice([0.5, 0.9]), "rebal": rng.random() < 0.5, "oracle_seed": rng.randrange(10 ** 6),
                 "lam": rng.choice(ref.LAMBDAS), "ml": rng.random() < 0.25, "data": ref.random_data_desc(rng), "forced": k % 2 == 1,
                 "interp_forced": k % 3 == 0, "continue_steps": rng.choice([0, 1, 2])}
+        # a third is continued after the stop; the total number of refinement steps stays <= 3 (d=2) / 2 (d=3): grids grow geometrically
+        if case["continue_steps"]:
+            total = 3 if d == 2 else 2
+            case["steps"] = max(1, min(case["steps"], total - 1))
+            case["continue_steps"] = max(1, min(case["continue_steps"], total - case["steps"]))
         ctx.case(case)
         case_history(ctx, case)
     tsec["history"] = time.time() - t0
